@@ -135,7 +135,7 @@ class Run:
                                   "line": int(m.group(4)), "msg": m.group(5)})
 
     def programs(self):
-        starts = [i for i, l in enumerate(self.ops) if l.startswith("new") or l.startswith("prog") or l.startswith("srv ") or l.startswith("cnew") or l.startswith("stress") or l.startswith("ext ")]
+        starts = [i for i, l in enumerate(self.ops) if l.startswith("new") or l.startswith("prog") or l.startswith("srv ") or l.startswith("cnew") or l.startswith("stress") or l.startswith("ext ") or l.startswith("note ")]
         if not starts:
             starts = [0]
         bounds = starts + [len(self.ops)]
